@@ -63,8 +63,12 @@ def histCmd (ws : List String) : String :=
             match op.toList.head? with
             | some 'a' | some 'x' => histStep pool true st op
             | _ => { st with obs := st.obs ++ ["n"] }) { c := c0, w := {}, obs := [] }
-          let (c', _, ok) := st.c.flush {}
-          s!"{joinSp st.obs} final=close={okStr ok} writer=[{writerEntries (c'.writer {})}]"
+          -- Close, retried while it fails (at most three times)
+          let (c1, _, ok1) := st.c.flush {}
+          let (c2, _, ok2) := if ok1 then (c1, ({} : Writer), true) else c1.flush {}
+          let (c3, _, ok3) := if ok1 || ok2 then (c2, ({} : Writer), true) else c2.flush {}
+          let rs := if ok1 then [okStr ok1] else if ok2 then [okStr ok1, okStr ok2] else [okStr ok1, okStr ok2, okStr ok3]
+          s!"{joinSp st.obs} final=close={",".intercalate rs} writer=[{writerEntries (c3.writer {})}]"
       else
       match Coll.new? ctor n sc with
       | none => "bad-op"
